@@ -298,7 +298,7 @@ def build_schedules(ctx, quick):
         cfg = core.cfg_variant(ctx, "ABCI_weak_%s.cfg" % w, "ABCI_att_%s.cfg" % w,
                                {"Prio": True, "Gates": True, "MaxCalls": 3, "UserStop": False, "Server": '"raw"',
                                 "Faults": '{"wrongtype", "extra", "swap", "exception", "garbage", "close", "halfclose", "midframe"}'})
-        att.append(("att_" + w, dict(module="ABCI_sock", cfg=cfg, timeout=600, workers=2, label="att_" + w)))
+        att.append(("att_" + w, dict(module="ABCI_sock", cfg=cfg, timeout=600, workers=1, label="att_" + w)))
     for inv in ("NoPanic", "NoPanicDeep", "NoPanicDeepStop", "NoStuckWaiter", "NoStuckEnqueuer"):
         deep = inv.startswith("NoPanicDeep")
         consts = {"Prio": True, "Gates": True, "MaxCalls": 3 if deep else 4, "UserStop": deep, "SetCb": False,
@@ -306,10 +306,10 @@ def build_schedules(ctx, quick):
         if inv == "NoPanicDeepStop":
             consts.update({"CallKinds": '{"AsyncA", "SyncA"}', "Faults": "{}"})
         cfg = core.cfg_variant(ctx, "ABCI_asis.cfg", "ABCI_att_asis_%s.cfg" % inv, consts, invariants=[inv])
-        att.append(("att_asis_" + inv, dict(module="ABCI_sock", cfg=cfg, timeout=900, workers=2, label="att_asis_" + inv)))
+        att.append(("att_asis_" + inv, dict(module="ABCI_sock", cfg=cfg, timeout=1500, workers=1, label="att_asis_" + inv)))
     for w in LOCAL_WEAK:
         cfg = core.cfg_variant(ctx, "ABCI_weak_%s.cfg" % w, "ABCI_att_%s.cfg" % w, {"Prio": True, "MaxCalls": 3})
-        att.append(("att_" + w, dict(module="ABCI_local", cfg=cfg, timeout=600, workers=2, label="att_" + w)))
+        att.append(("att_" + w, dict(module="ABCI_local", cfg=cfg, timeout=600, workers=1, label="att_" + w)))
     lib = os.path.join(ctx.verif, "spec", "attacks", "ABCI", "library.json")
     use_lib = quick and os.path.exists(lib)
     alljobs = jobs + weak + ([] if use_lib else att)
@@ -352,7 +352,7 @@ def build_schedules(ctx, quick):
                 st = sock_steps(states)
                 sock_runs.append({"id": key, "qcap": 2, "steps": st})
                 if key.startswith("att_asis_"):      # interleaving-dependent on real code: three attempts
-                    for k in (2, 3):
+                    for k in range(2, 8 if "Panic" in key else 4):
                         sock_runs.append({"id": "%s#%d" % (key, k), "qcap": 2, "steps": st, "rep": k})
     for i, beh in enumerate(read_sim(os.path.join(simp, "s"), nsim)):
         sock_runs.append({"id": "sim%d-%d" % (ctx.seed, i), "qcap": 2, "steps": sock_steps(beh)})
